@@ -1,25 +1,41 @@
 import os, sys
 _log = os.environ.get("VERIF_AUDIT_LOG")
-_crash = os.environ.get("VERIF_CRASH_MATCH")  # "event|substr|nth"
+_crash = os.environ.get("VERIF_CRASH_AT")      # "k" or "k:tear"  (k = index of the mutation before which to die, 0-based)
 _MUT = {"os.mkdir", "os.rename", "os.remove", "os.rmdir", "os.truncate", "os.link", "os.symlink"}
 if _log or _crash:
     _fd = os.open(_log, os.O_WRONLY | os.O_APPEND | os.O_CREAT, 0o644) if _log else None
-    _cnt = [0]
+    _cnt = [0]; _last = [None]
+    _k, _tear = (None, None)
     if _crash:
-        _cev, _csub, _cn = _crash.split("|"); _cn = int(_cn)
+        parts = _crash.split(":"); _k = int(parts[0]); _tear = parts[1] if len(parts) > 1 else None
+    _root = os.environ.get("VERIF_AUDIT_ROOT", "")
+    def _abs(p, dir_fd=None):
+        try:
+            p = os.fsdecode(p)
+            if dir_fd is not None and isinstance(dir_fd, int) and dir_fd >= 0 and not os.path.isabs(p):
+                p = os.path.join(os.readlink(f"/proc/self/fd/{dir_fd}"), p)
+            return os.path.abspath(p)
+        except Exception:
+            return str(p)
     def _hook(ev, args):
         mut = None
         if ev == "open":
             p, mode, flags = args
             if isinstance(p, (str, bytes)) and isinstance(flags, int) and (flags & (os.O_WRONLY | os.O_RDWR | os.O_CREAT | os.O_TRUNC)):
-                mut = ("open", str(p))
+                mut = ("open", _abs(p))
         elif ev in _MUT:
-            mut = (ev, repr(args))
-        if mut is None: return
+            if ev == "os.rename": mut = (ev, _abs(args[0], args[2]) + " -> " + _abs(args[1], args[3]))
+            elif ev in ("os.remove", "os.rmdir"): mut = (ev, _abs(args[0], args[1]))
+            elif ev == "os.mkdir": mut = (ev, _abs(args[0], args[2]))
+            else: mut = (ev, repr(args))
+        if mut is None or (_root and _root not in mut[1]): return
+        if _k is not None and _cnt[0] == _k:
+            if _tear is not None and _last[0] and os.path.isfile(_last[0]):
+                sz = os.path.getsize(_last[0])
+                with open(_last[0], "r+b") as f: f.truncate(0 if _tear == "0" else sz // 2)
+            os._exit(137)
         if _fd is not None:
-            os.write(_fd, (f"{os.getpid()}\t{mut[0]}\t{mut[1]}\n").encode())
-        if _crash and mut[0] == _cev and _csub in mut[1]:
-            _cnt[0] += 1
-            if _cnt[0] == _cn:
-                os._exit(137)
+            os.write(_fd, (f"{_cnt[0]}\t{mut[0]}\t{mut[1]}\n").encode())
+        _cnt[0] += 1
+        if mut[0] == "open": _last[0] = mut[1]
     sys.addaudithook(_hook)
